@@ -40,6 +40,8 @@ type c20state struct {
 	name  string
 	next  int
 	an    c20anoms
+	taint map[string]bool // index keys left inconsistent by a reported update (not judged again)
+	upd   [3]int          // last update: {1 mac / 0 ip, old key, new key}
 }
 
 func newC20state(c *sim.Ctx, nent int, lease bool) *c20state {
@@ -50,7 +52,7 @@ func newC20state(c *sim.Ctx, nent int, lease bool) *c20state {
 	return w
 }
 
-func (w *c20state) barrier(string) bool { return false }
+func (w *c20state) barrier(k string) bool { return k == "update" }
 
 func (w *c20state) byID(id string) (mac net.HardwareAddr, ip net.IP, ok bool) {
 	if w.lease {
@@ -105,11 +107,11 @@ func (w *c20state) exec(op sim.Op) string {
 	case "create":
 		sl := &c20sslot{id: fmt.Sprintf("e%d", w.next), mac: c20idx(op.Arg(1), w.n), ip: c20idx(op.Arg(2), w.n), live: true}
 		w.next++
-		// an address is an exclusive key: a well-behaved caller never hands a live one out twice
-		// (two entities for one MAC are legitimate)
+		// MAC and address are exclusive keys of this store (its indexes are single-valued):
+		// a well-behaved caller never gives a key of a live entity to a second one
 		for _, o := range w.slots {
-			if o.live && o.ip == sl.ip {
-				return "create skipped (address in use)"
+			if o.live && (o.ip == sl.ip || o.mac == sl.mac) {
+				return "create skipped (key in use)"
 			}
 		}
 		w.slots = append(w.slots, sl)
@@ -140,6 +142,45 @@ func (w *c20state) exec(op sim.Op) string {
 		}
 		sl.live = false
 		return "delete " + sl.id
+	case "update":
+		// change the MAC (Arg(2)==0) or the address of a live entity to a key nobody carries
+		if len(w.slots) == 0 {
+			return "update -"
+		}
+		sl := w.slots[c20idx(op.Arg(1), len(w.slots))]
+		nk := c20idx(op.Arg(3), w.n)
+		byMac := op.Arg(2)%2 == 0
+		if !sl.live || !sl.ready {
+			return "update skipped (not live)"
+		}
+		for _, o := range w.slots {
+			if o.live && ((byMac && o.mac == nk) || (!byMac && o.ip == nk)) {
+				return "update skipped (key in use)"
+			}
+		}
+		mac, ip := sl.mac, sl.ip
+		if byMac {
+			mac = nk
+		} else {
+			ip = nk
+		}
+		var err error
+		if w.lease {
+			err = w.st.UpdateLease(&state.Lease{ID: sl.id, MAC: c20mac(mac), IPv4: c20ip(ip), PoolID: "p"})
+		} else {
+			err = w.st.UpdateSession(&state.Session{ID: sl.id, MAC: c20mac(mac), IPv4: c20ip(ip)})
+		}
+		if err != nil {
+			return "update failed"
+		}
+		w.upd = [3]int{-1, -1, -1}
+		if byMac {
+			w.upd = [3]int{1, sl.mac, nk}
+		} else {
+			w.upd = [3]int{0, sl.ip, nk}
+		}
+		sl.mac, sl.ip = mac, ip
+		return fmt.Sprintf("update %s -> mac#%d ip#%d", sl.id, mac, ip)
 	case "bymac":
 		w.byKey(true, c20idx(op.Arg(1), w.n))
 	case "byip":
@@ -180,19 +221,33 @@ func (w *c20state) check(after string) {
 					owners = append(owners, sl.id)
 				}
 			}
+			if w.taint[fmt.Sprintf("%s/%d", kind, k)] {
+				continue
+			}
 			id, mac, ip, ok, dangling := w.byKey(byMac, k)
 			if (dangling || (!ok && len(owners) > 0)) && !w.an.fresh(fmt.Sprintf("%s-lost/%d", kind, k)) {
+				continue
+			}
+			if after == "update" {
+				// a key change through Update: the old key must stop resolving, the new one must resolve
+				l := live[id]
+				bad := dangling || (!ok && len(owners) > 0) ||
+					(ok && !(l != nil && ((byMac && l.mac == k) || (!byMac && l.ip == k))))
+				if bad {
+					if w.taint == nil {
+						w.taint = map[string]bool{}
+					}
+					w.taint[fmt.Sprintf("%s/%d", kind, w.upd[1])] = true
+					w.taint[fmt.Sprintf("%s/%d", kind, w.upd[2])] = true
+					c.Fail("lookups-agree", w.name+"/"+kind+"/not-reindexed/after-update", "after Update changed the key of an entity from #%d to #%d, lookup %s #%d returns %q (found=%v); live carriers of #%d: %v", w.upd[1], w.upd[2], kind, k, id, ok, k, owners)
+				}
 				continue
 			}
 			switch {
 			case dangling:
 				c.Fail("lookups-agree", w.name+"/"+kind+"/dangling/after-"+after, "lookup %s #%d returns a nil entity without error (index points to a deleted entity); live owners %v", kind, k, owners)
 			case !ok && len(owners) > 0:
-				sib := "single"
-				if w.shared(byMac, k) {
-					sib = "shared-key"
-				}
-				c.Fail("lookups-agree", w.name+"/"+kind+"/lost/"+sib+"/after-"+after, "lookup %s #%d finds nothing although %v (live, found by id) carry that key", kind, k, owners)
+				c.Fail("lookups-agree", w.name+"/"+kind+"/lost/after-"+after, "lookup %s #%d finds nothing although %v (live, found by id) carry that key", kind, k, owners)
 			case ok:
 				l := live[id]
 				carries := l != nil && ((byMac && l.mac == k && mac.String() == c20mac(k).String()) || (!byMac && l.ip == k && ip.Equal(c20ip(k))))
@@ -203,17 +258,6 @@ func (w *c20state) check(after string) {
 		}
 	}
 	c.State(uint64(len(live))<<8 | uint64(len(w.slots)) | 0x20a000)
-}
-
-// shared: the key has been carried by two entities during the run.
-func (w *c20state) shared(byMac bool, k int) bool {
-	n := 0
-	for _, sl := range w.slots {
-		if (byMac && sl.mac == k) || (!byMac && sl.ip == k) {
-			n++
-		}
-	}
-	return n > 1
 }
 
 func (w *c20state) seq(op sim.Op) {
